@@ -239,6 +239,10 @@ def themes(ctx):
     T.append(dict(name="stack", atoms=stack_catalogue(), scalars=[(0, 1)], axes=none_and([0, 1, -1, -2, 2, -3]), arities="{2, 3}" if th else "{2}",
                   max_stack=3 if th else 2, max_flat=16, max_level=5 if th else 3,
                   calls=["Push", "Hstack", "Vstack", "Diag", "H", "N"] + (["Mul"] if th else [])))
+    if not th:
+        # three operands (split indices beyond the first boundary), fewer atoms / axes to stay small
+        T.append(dict(name="stack3", atoms=stack_catalogue()[:5], scalars=[(0, 1)], axes=none_and([0, -1, 1]), arities="{3}",
+                      max_stack=3, max_flat=16, max_level=4, calls=["Push", "Hstack", "Vstack", "Diag"]))
     return T
 
 
